@@ -30,7 +30,10 @@ def _same(x, y):
 
 
 def fresh_answer(cfg, entropy, via, a, b):
-    key = (bmm.cfg_key(cfg), entropy, via, bmm.hexf(a), bmm.hexf(b))
+    # the memo lives as long as the pool worker and is shared by every unit that worker happens to get: the key must
+    # name the object completely (every configuration field, t0 and t1 included), or the dictionary entry of one
+    # configuration is served for another and the verdict depends on how the pool dealt the units out
+    key = (tuple(sorted((k, repr(v)) for k, v in cfg.items())), entropy, via, bmm.hexf(a), bmm.hexf(b))
     if key not in _DICT:
         _DICT[key] = bmm.Built(cfg, entropy).q(a, b, via)
     return _DICT[key]
